@@ -112,4 +112,31 @@ theorem lone_empty_pinned :
 /-- the CR LF hypothesis is forced: a field "a\r\nb" comes back as "a\nb" -/
 example : readAll (writeAll needsQuotes [[[97, 13, 10, 98]]]) = .ok [[[97, 10, 98]]] := by decide
 
+/-- what a round trip does to a cell it does once: the imported cell is already in imported form -/
+theorem normalize_idem (c : Cell) : normalize (normalize c) = normalize c := by
+  cases c <;> rfl
+
+/-- the imported frame is a fixed point: exporting and importing it again returns it unchanged
+(a second round trip changes nothing — no drift of types or values) -/
+theorem roundtrip_fixed_point (ω : Oracle) {f : Frame} {n : Nat} (hs : f.Sorted) (hr : f.RectN n) (hne : f ≠ []) :
+    let g : Frame := f.map (fun kc => (kc.1, { name := kc.1, data := kc.2.data.map normalize }))
+    (∀ kc ∈ g, ∀ c ∈ kc.2.data, CellLaw ω c) → NoCRLF (toCSVRecords ω g) →
+    fromCSV ω (toCSV ω g) = .ok g := by
+  intro g hcells hcr
+  have hsg : g.Sorted := by
+    unfold Frame.Sorted at hs ⊢
+    simpa [g, List.pairwise_map] using hs
+  have hrg : g.RectN n := by
+    intro kc hkc
+    obtain ⟨kc0, h0, rfl⟩ := List.mem_map.mp hkc
+    exact ⟨by simpa using (hr kc0 h0).1, rfl⟩
+  have hneg : g ≠ [] := by
+    intro h; apply hne; simpa [g] using h
+  rw [C09_roundtrip ω hsg hrg hneg hcells hcr]
+  congr 1
+  simp only [g, List.map_map]
+  apply List.map_congr_left
+  intro kc _
+  simp [Function.comp, normalize_idem]
+
 end Goframe.C09
